@@ -731,29 +731,40 @@ def _gen_admm(rng, cplx, edge):
     if is_block(xs) or len(xs) == 2:
         solver = "linear"
     Cs = []
+    mkinds = _pick(rng, [["mat"], ["mat"], ["id", "diag", "sid"]])
     for i in range(N):
         if solver == "matrix":
-            # (mixing Diagonal and MatrixOperator constraints is rejected by MatrixATADSolver - C10 territory)
-            Cs.append(gen_mat(rng, int(rng.integers(1, 5)), xs[0], cplx))
+            # MatrixSubproblemSolver: all-Diagonal or all-MatrixOperator constraint lists (f=None and Diagonal f.A work
+            # since de41369; a mixture of the two kinds is still rejected by MatrixATADSolver - C10 territory)
+            Cs.append(gen_op(rng, xs, cplx, False, mkinds))
         else:
             Cs.append(gen_op(rng, xs, cplx))
     # make the x-update well posed: an identity-like constraint or a loss with identity forward operator
-    # (MatrixSubproblemSolver with f=None cannot be constructed in the pinned tree - C10 territory)
-    # and with f.A a Diagonal neither - C10 territory: the matrix solver always gets a MatrixOperator loss)
     if solver == "matrix":
-        m = int(rng.integers(1, 5))
-        f = {"k": "sqloss", "s": _pick(rng, [0.5, 1.0, 2.0]), "A": gen_mat(rng, m, xs[0], cplx), "yshape": [m],
-             "y": rand_value(rng, (m,), cplx)}
-        if rng.integers(0, 3) == 0:
-            f["W"] = (np.abs(dy(rng, (m,), 2, 2.0)) + 0.25).tolist()
+        c = rng.integers(0, 4)
+        if c == 0:
+            f = None
+        else:
+            if c == 1:
+                Arec = {"t": "diag", "d": (np.abs(dy(rng, (xs[0],), 2, 2.0)) + 0.25).tolist()}
+                if cplx:
+                    Arec["di"] = dy(rng, (xs[0],), 2, 2.0).tolist()
+                m = xs[0]
+            else:
+                m = int(rng.integers(1, 5))
+                Arec = gen_mat(rng, m, xs[0], cplx)
+            f = {"k": "sqloss", "s": _pick(rng, [0.5, 1.0, 2.0]), "A": Arec, "yshape": [m], "y": rand_value(rng, (m,), cplx)}
+            if rng.integers(0, 3) == 0:
+                f["W"] = (np.abs(dy(rng, (m,), 2, 2.0)) + 0.25).tolist()
     else:
         f = _maybe(rng, gen_loss(rng, xs, cplx, A="id"), 0.35)
     wellposed = (f is not None and (f.get("A") is None or (f["A"]["t"] == "diag" and all(abs(d) == 1.0 for d in f["A"]["d"]))) and (f.get("W") is None or min(f["W"]) > 0))
-    if solver == "matrix":
-        eye = {"t": "mat", "M": np.eye(xs[0]).tolist()}
-        if cplx:
-            eye["Mi"] = np.zeros((xs[0], xs[0])).tolist()
-        Cs[int(rng.integers(0, N))] = eye
+    if solver == "matrix" and mkinds == ["mat"]:
+        if not wellposed:
+            eye = {"t": "mat", "M": np.eye(xs[0]).tolist()}
+            if cplx:
+                eye["Mi"] = np.zeros((xs[0], xs[0])).tolist()
+            Cs[int(rng.integers(0, N))] = eye
     elif not wellposed and not any(c["t"] in ("id", "sid") for c in Cs):
         Cs[int(rng.integers(0, N))] = {"t": "id"}
     gs = []
